@@ -2,6 +2,7 @@ package checks
 
 import (
 	"fmt"
+	"math/bits"
 	"strings"
 	"time"
 
@@ -35,6 +36,9 @@ var c06refs = []c06ref{
 	{"svc-wither-multi-param", "param", `"@svcWither"`, "tTwelve", "nopeTwelve"},
 	{"param-after-function", "param", `"%pAfterFn%"`, "tThirteen", "nopeThirteen"},
 	{"svc-arg-after-function", "param", `"@svcAfterFn"`, "tFourteen", "nopeFourteen"},
+	{"svc-second-arg-of-first-call-svc", "service", `"svcMulti"`, "uFifteen", "goneFifteen"},
+	{"svc-third-arg-of-second-call-param", "param", `"@svcMulti"`, "tSixteen", "nopeSixteen"},
+	{"svc-last-field-svc", "service", `"svcMulti"`, "uSeventeen", "goneSeventeen"},
 }
 
 func c06build(dangling uint, variant int) *Cfg {
@@ -80,6 +84,9 @@ func c06build(dangling uint, variant int) *Cfg {
 		Service{Name: "svcFieldS", Value: P("Thing{}"), Fields: []KV{{"Fb", "@" + name(9)}}},
 		Service{Name: "svcWither", Constructor: P("NewThing"), Calls: []Call{{Method: "With", Args: []any{"x%%%" + name(11) + "%:%tOne%"}, Immutable: P(true)}}},
 		Service{Name: "svcAfterFn", Constructor: P("NewThing"), Args: []any{`%todo("x")%%envInt("C06_PORT", 1)%-%` + name(13) + `%`}},
+		Service{Name: "svcMulti", Constructor: P("NewThing"), Args: []any{"x"},
+			Calls:  []Call{{Method: "First", Args: []any{"a", "@" + name(14), "b"}}, {Method: "Second", Args: []any{1, 2, "%" + name(15) + "%"}}, {Method: "Third", Args: []any{"z"}}},
+			Fields: []KV{{"Fa", "plain"}, {"Fz", "@" + name(16)}}},
 		Service{Name: "carrier", Constructor: P("NewThing"), Tags: []Tag{{Name: "tagA"}, {Name: "tagB"}}},
 	)
 	c.Decorators = []Decorator{
@@ -93,7 +100,7 @@ func init() {
 	Register(&Check{
 		ID:    "C06",
 		Level: "exploration",
-		Rule: "every subset of the 14 reference positions (param->param single chunk / multi-chunk / after %%; service ctor, call, field, wither multi-chunk -> param; a reference after a function chunk in a parameter and in a service argument; decorator -> param; service ctor, call, field -> service; decorator -> service) made dangling, x 3 declared-ness variants of the targets (literal / %todo()% + todo:true / %todo(\"msg\")%); " +
+		Rule: "every subset of the 17 reference positions (param->param single chunk / multi-chunk / after %%; service ctor, call, field, wither multi-chunk -> param; a reference after a function chunk in a parameter and in a service argument; non-first arguments of several calls followed by fields; decorator -> param; service ctor, call, field -> service; decorator -> service) made dangling, x 3 declared-ness variants of the targets (literal / %todo()% + todo:true / %todo(\"msg\")%); " +
 			"non-trivial = at least one reference dangling; distinct = distinct (subset, variant)",
 		Assumptions: []string{
 			"diagnostics are matched by content: rule prefix (output.ValidateParamsExist / output.ValidateServicesExist), the referrer token and the quoted missing name; multiplicity is not compared",
@@ -153,6 +160,13 @@ func init() {
 			}
 			for variant := 0; variant < 3; variant++ {
 				for set := uint(0); set < 1<<uint(n); set++ {
+					if w.Env.Quick() {
+						// quick: every subset of size <= 3 and every complement of one (thorough: all 2^17)
+						pc := bits.OnesCount(set)
+						if pc > 3 && pc < n-3 {
+							continue
+						}
+					}
 					set, variant := set, variant
 					w.Case(fmt.Sprintf("v%d/set=%03x", variant, set), func(c *C) {
 						cfg := c06build(set, variant)
